@@ -13,6 +13,7 @@ CONSTANTS
   SyncStarts = {0}
   SyncEnds = {0}
   CapZeroUnbounded = FALSE
+  LastUncapped = FALSE
 CONSTRAINT Track
 INVARIANTS Conform C10_PhysBound
 PROPERTIES C10_ReadWindow C10_Monotone C10_TrimCovered
